@@ -387,7 +387,7 @@ Qed.
 
 Theorem reach_in_PS s : reach_in sc s -> PS s.
 Proof.
-  induction 1 as [s WF E|s o s' _ IH E|s t k p s' _ IH E|s s' _ IH E|s d en' _ IH E].
+  induction 1 as [s WF E|s o s' _ IH E|s t k p s' _ IH E|s s' _ IH E|s d en' _ IH E|s d ups s' _ IH E].
   - unfold do_fxop in E. cbn [fst snd] in E.
     set (w0 := fq_world sc) in *. set (w := init_world (fl_fuel w0) (now (init_env (A:=fact))) w0) in *.
     destruct (flush_f w) as [w1 cs] eqn:FL.
@@ -414,6 +414,8 @@ Proof.
     unfold start_run, schedule in E. cbn in E. destruct (now (snd s) + d <? now (snd s)); [discriminate|]. injection E as <-.
     intros d' NS IH'. destruct (H d' NS IH') as [e' [A [B [C D]]]]. exists e'. repeat split; auto. cbn.
     apply (insort_in fact). right. exact D.
+  - destruct IH as [O [I H]]. unfold do_fxop in E.
+    apply (PS_fin wsd (fst s) (snd s) (late_create (fl_fuel (fst s)) (now (snd s)) (fst s) d ups) s' O I H); [apply RJ_late_create|exact E].
 Qed.
 
 (** * C03: no ready part is forgotten *)
